@@ -19,7 +19,7 @@ TEXT = {
  "C11": "step functions and the small-shape fix-point loop proved for symbolic entries (bounded in shape); projection property end to end by bounded stand-in",
  "C12": "row_bounds exact, tighten_column_bounds sound and non-widening, n_row_combinations: proved for symbolic entries on shapes up to 2x2 (bounded in shape; float rounding not modelled); brute force up to 3x3 incl. large coefficients by bounded stand-in",
  "C13": "first/last/min/max, ranking, prio/rank and shadow (the latter over the executable form of the assumed contract A-rs2 of the compiled bit allocation) proved through the real Python code for symbolic entries on small shapes (1-D n<=3, 2-D up to 2x2 quick / 3x2 thorough, both axes); A-rs2 validated against the compiled function at run time; larger shapes, 3-D, >2^53 values and call sequences on one array by bounded stand-in",
- "C14": "cc.Any/cc.Xor restructuring around the default (truth function, -2 tag, partition) proved for any number of children; default_prios (tag or -1 per flattened node) and _vectors_from_prios (two-level stack handed to the shadow compression) proved; Lean dominance lemma; objective ranking end to end by bounded stand-in (weights from compiled code: A-rs2)",
+ "C14": "cc.Any/cc.Xor restructuring around the default (truth function, -2 tag, partition) proved for any number of children; default_prios (tag or -1 per flattened node) and _vectors_from_prios (two-level stack handed to the shadow compression) proved; Lean dominance lemma; objective ranking end to end by bounded stand-in (weights from compiled code: A-rs2); the objective vector end to end through the real shadow compression over the executable A-rs2 model: sign, level and dominance structure proved for 2-3 columns with symbolic priorities",
  "C15": "solve/select/StingyConfigurator.select alignment of objectives, solutions and ids proved for symbolic weights/solutions on 1-3 columns; objective rows of _vectors_from_prios (weight at the named column, 0 elsewhere) proved; recording and exact solvers on random models by bounded stand-in",
  "C16": "to_json -> from_json proved meaning/id preserving for every class incl. the configurator classes and any child count (compound children by contract; explicit ids concrete and fully symbolic, i.e. also ids that look generated); json.dumps/loads, Not, nested configurators by bounded stand-in; end to end on nested tree shapes with symbolic values",
  "C17": "alignment obligations of the b64 packing decided on the source (ast); pickle/gzip/base64 assumed; structural and behavioural equality after the round trip by bounded stand-in",
